@@ -20,6 +20,24 @@ CHECKS = {
    text="Items!NormalGap is the spacing normal form; TLC evaluates it on every gap of every rebuilt output (string and comment contents are inside items, hence exempt) and on the bounded model shows the transducer only emits normal gaps.",
    note=LAYOUT_NOTE, tech="TLA+ spacing normal form evaluated by TLC on real outputs"),
 }
+EDIT_NOTE = ("Trusted: TLC; harness/project.py doc() (independent CST reader) and harness/concretize.py render_doc(); the reference "
+             "semantics of Doc.tla (DESIGN.md appendix C) with the lenient readings of appendix E. Exhaustive over all depth-1 "
+             "transitions of the Edit.tla seed product under several wrapper shapes; longer histories are -simulate walks.")
+EDIT_TECH = "TLA+ document state machine (TLC-checked) + TLC trace validation of real edit histories"
+CHECKS.update({
+ "C04": dict(engine="edit", cat="model_checking", ref="DESIGN.md §7 C04",
+   text="Edit.tla is the document state machine; TLC checks on the bounded model that the reference semantics satisfy the frame condition C04_Frame; every depth-1 transition and random longer histories are replayed on one real in-memory document and TLC (Edit_Trace) judges each step: all items but the addressed one identical (attrpath as written, value, comments, blank flags, order), file trivia unchanged, and for canonical input a single contiguous byte region.",
+   note=EDIT_NOTE, tech=EDIT_TECH),
+ "C05": dict(engine="edit", cat="model_checking", ref="DESIGN.md §7 C05",
+   text="Doc.tla states the documented effect of set/rm on the attribute tree (SetEffect/RmEffect), the storage-form rules (attrpath family extended in attrpath form, fresh binding last), NoDuplicate and the admissible refusal reasons; TLC validates them on the model and judges every recorded real step (output parses, tree read back from the output text equals the specified tree, refusals only for specified reasons, never because of wrappers).",
+   note=EDIT_NOTE, tech=EDIT_TECH),
+ "C08": dict(engine="edit", cat="model_checking", ref="DESIGN.md §7 C08",
+   text="C08_Atomic / C08_ErrorClass / C08_Loud: histories interleave failing and succeeding operations on one object; for every raising call TLC requires KeyError/ValueError, projected state = pre-state, identical rebuilt text and identical deep snapshot of the object; operations the specification refuses must raise.",
+   note=EDIT_NOTE, tech=EDIT_TECH),
+ "C09": dict(engine="edit", cat="model_checking", ref="DESIGN.md §7 C09",
+   text="Layers are outermost-first in Doc; selector depth d addresses layers[Len-d+1]. TLC checks C09_Addressing on the model (0..3 layers, same name in several layers) and on every recorded scoped step: only the addressed layer changes, creation adds exactly one innermost layer, an emptied layer disappears and only it, output valid.",
+   note=EDIT_NOTE, tech=EDIT_TECH),
+})
 import os
 built = {p: m for p, m in CHECKS.items()}
 checks = []
@@ -45,6 +63,8 @@ man = {
  "engines": [
    {"name": "layout", "path": "harness/engines/layout.py", "serves_properties": ["C01", "C03", "C06", "C18"],
     "kind_free_text": "spec/Gen.tla (grammar as data) -> real parse/rebuild -> spec/Fmt_Trace.tla (TLC judges every recorded round trip)"},
+   {"name": "edit", "path": "harness/engines/edit.py", "serves_properties": ["C04", "C05", "C08", "C09"],
+    "kind_free_text": "spec/Doc.tla + spec/Edit.tla (document state machine, reference semantics) -> histories replayed on one real document -> spec/Edit_Trace.tla"},
  ],
  "checks": checks,
  "notes": "All checks: ./check <ID> [--tier quick|thorough]; VERIF_SEED / VERIF_TIER honoured. Known findings: known_findings.json. See DESIGN.md.",
